@@ -217,6 +217,71 @@ fn ctx_with(pairs: &[(&str, &V)]) -> Context {
     c
 }
 
+/// values that are neighbours of one another: equal up to representation, sub- and supersets, shared prefixes
+fn neighbour_pool() -> Vec<V> {
+    let m = |ks: &[&str]| V::Map(ks.iter().enumerate().map(|(i, k)| (K::Str(k.to_string()), V::I64(i as i64 + 1))).collect());
+    vec![
+        m(&["a", "b"]), m(&["a", "b", "c"]), m(&["a"]), m(&["b", "a"]), m(&["a", "b", "c", "d"]), m(&["c", "d"]), V::Map(vec![(K::I64(1), V::I64(1)), (K::Str("a".into()), V::I64(2))]),
+        V::Map(vec![(K::Str("a".into()), V::F64(1.0)), (K::Str("b".into()), V::I64(2))]),
+        V::Arr(vec![V::I64(1), V::I64(2)]), V::Arr(vec![V::I64(1), V::I64(2), V::I64(3)]), V::Arr(vec![V::F64(1.0), V::I64(2)]), V::Arr(vec![V::I64(2), V::I64(1)]), V::Arr(vec![V::U64(1), V::I128(2)]),
+        V::Arr(vec![V::Str("a".into()), V::Str("b".into())]), V::Arr(vec![V::Str("a".into()), V::Str("b".into()), V::Str("a".into())]),
+        V::Str("ab".into()), V::Str("ab\0".into()), V::Str("abc".into()), V::Str("AB".into()), V::Safe("ab".into()), V::Str("ab ".into()), V::Str("1".into()), V::Str("1.0".into()),
+        V::Str("a much longer string than the inline form holds".into()), V::Str("a much longer string than the inline form holdz".into()),
+        V::I64(1), V::F64(1.0), V::U64(1), V::I128(1), V::Bool(true), V::I64(2), V::F64(2.0), V::F64(1.5), V::I64(-1), V::F64(-1.0), V::None,
+    ]
+}
+
+/// A built-in is a function of its receiver and arguments: the same call gives the same result whatever was evaluated before
+/// it on this thread. Each call is evaluated over a pool of neighbouring values in one order, then in the opposite order,
+/// then each value twice in a row; every result must equal the first one obtained for that value.
+fn order_independence(cx: &mut Cx, tera: &Tera, s: &Spec) {
+    let pool = neighbour_pool();
+    let mut srcs = vec![(call_src(s, &[]), None)];
+    for (ai, (aname, _, ty)) in s.args.iter().enumerate() {
+        // the argument takes the neighbouring values too when it is the only required one or optional
+        if s.args.iter().enumerate().all(|(j, a)| j == ai || !a.1) {
+            let _ = ty;
+            srcs.push((call_src(s, &[(*aname, "x")]), Some(*aname)));
+        }
+    }
+    for (src, arg) in &srcs {
+        let fixed = V::Arr(vec![V::I64(1), V::I64(2), V::I64(3)]);
+        let eval = |cx: &mut Cx, v: &V| -> Option<String> {
+            let c = match arg {
+                None => ctx_with(&[("v", v)]),
+                Some(_) => ctx_with(&[("v", if s.kind == Kind::Function { v } else { &fixed }), ("x", v)]),
+            };
+            let o = render(cx, tera, src, &c, &|| json!({"src": src, "v": v.tagged()}))?;
+            // errors are compared by their first line
+            Some(match (o.ok, o.err) {
+                (Some(t), _) => format!("OK {t}"),
+                (_, Some(e)) => format!("ERR {}", e.lines().next().unwrap_or("")),
+                _ => String::new(),
+            })
+        };
+        let first: Vec<Option<String>> = pool.iter().map(|v| eval(cx, v)).collect();
+        let mut check = |cx: &mut Cx, i: usize, how: &str| {
+            let again = eval(cx, &pool[i]);
+            cx.count("order_independence_comparisons", 1);
+            if again != first[i] {
+                cx.violation(
+                    &format!("C17/result-depends-on-earlier-calls/{}", s.name),
+                    format!("{src} with {:?} gave {:?} at first and {:?} when evaluated {how}", pool[i], first[i], again),
+                    json!({"src": src, "v": pool[i].tagged(), "order": how}),
+                );
+            }
+        };
+        for i in (0..pool.len()).rev() {
+            check(cx, i, "after its neighbours in the opposite order");
+        }
+        for i in 0..pool.len() {
+            check(cx, i, "again after the whole pool");
+            check(cx, i, "twice in a row");
+        }
+        cx.cell(format!("{}|order-independence|{}", s.name, arg.unwrap_or("receiver")));
+    }
+}
+
 fn matrix_case(cx: &mut Cx, tera: &Tera, s: &Spec, pool: &[V]) {
     let receivers: Vec<&V> = if s.kind == Kind::Function { vec![&pool[0]] } else { pool.iter().collect() };
     // --- no argument at all
@@ -293,6 +358,7 @@ fn matrix_case(cx: &mut Cx, tera: &Tera, s: &Spec, pool: &[V]) {
             }
         }
     }
+    order_independence(cx, tera, s);
     cx.count("matrix_builtins_completed", 1);
 }
 
